@@ -26,6 +26,10 @@ TASKS = [
      'input: q/1. output: p/1.'),
     ('private-clash', 'program', 'p(X) :- q(X), not r(X). r(X) :- q(X), X > 3.', 'p(X) :- q(X), r(X). r(X) :- q(X), X <= 3.',
      'input: q/1. output: p/1.'),
+    ('private-clash-left-body-only', 'program', 'granted(X) :- request(X), not blocked(X).',
+     'granted(X) :- request(X), not blocked(X). blocked(X) :- request(X), X > 3.', 'input: request/1. output: granted/1.'),
+    ('private-clash-right-body-only', 'program', 'granted(X) :- request(X), not blocked(X). blocked(X) :- request(X), X > 3.',
+     'granted(X) :- request(X), not blocked(X).', 'input: request/1. output: granted/1.'),
     ('private-clash-and-literal-suffix', 'program', 'p(X) :- q(X), not r(X), not r_p(X). r(X) :- q(X), X > 3. r_p(X) :- q(X), X < 0.',
      'p(X) :- q(X), not r(X). r(X) :- q(X), X > 5.', 'input: q/1. output: p/1.'),
     ('placeholder-integer', 'program', 'p(1..n).', 'p(X) :- X = 1..n.', 'input: n -> integer. output: p/1. assumption: n >= 0.'),
